@@ -100,7 +100,12 @@ THEOREMS = {
         "C11_inv_step", "C11_inv_reachable", "C11_push_new", "C11_push_duplicate", "C11_push_replace", "C11_pop_min",
         "C11_head_min", "C11_empty_errors", "C11_get", "C11_remove", "C11_list_exact", "C11_list_all",
         "StrOp.startsWith_iff", "StrOp.endsWith_iff", "StrOp.contains_iff", "StrOp.equals_iff"]] +
-           [("QuartzModel.Theorems.C11Facts", "Queue." + t) for t in ["less_fact", "keyEquals_fact", "heapCalls_fact", "operators_fact", "matchers_fact"]],
+           [("QuartzModel.Theorems.C11Facts", "Queue." + t) for t in ["less_fact", "keyEquals_fact", "heapCalls_fact", "operators_fact", "matchers_fact"]] +
+           # "thread-safe": every exported method runs under the queue's own mutex from its first statement (regenerated), hence every
+           # interleaving of calls is a sequential order of them and the array a thread finds is a heap with unique keys
+           [("QuartzModel.Theorems.C11Lin", "Queue." + t) for t in ["C11_queue_lock_facts", "C11_queue_array_confined", "pushOp_run", "qcallOp_run",
+                                                                   "C11_linearizable", "qcall_inv", "C11_concurrent_inv"]] +
+           [("QuartzModel.Concurrency.Lock", "Lock.linearizable")],
     "C01": FACTS + ODO + [("QuartzModel.Theorems.C01", "Cron.C01_sound"), ("QuartzModel.Theorems.CronCode", "Cron.C01_sound_code"),
                           ("QuartzModel.Proofs.CronAssembly", "Cron.allValid_iff_matches"), ("QuartzModel.Proofs.DaySpec", "Cron.dayValid_iff"),
                           ("QuartzModel.Proofs.CalendarLemmas", "Cal.Civil.ofSeconds_toSeconds"), ("QuartzModel.Proofs.CalendarLemmas", "Cal.Civil.toSeconds_lt_iff")],
